@@ -1430,3 +1430,177 @@ pub fn handshake_frag(cx: &mut Ctx) {
 		cx.out.line(&format!("codec hsthen {} {} {} {}", dir, job.ver.min(1000), now, hex_list(&job.frags)), &rs);
 	}
 }
+
+// ---------------------------------------------------------------------------------------------------
+// list-carrying messages at their exact maximum item count
+
+fn peer_addrs_body(rng: &mut Rng, count_field: u32, present: usize) -> Vec<u8> {
+	let mut b = count_field.to_be_bytes().to_vec();
+	for _ in 0..present {
+		b.extend_from_slice(&sv(&gen_addr(rng), 1));
+	}
+	b
+}
+
+fn locator_body(rng: &mut Rng, count_field: u8, present: usize) -> Vec<u8> {
+	let mut b = vec![count_field];
+	for _ in 0..present {
+		b.extend_from_slice(&rng.bytes(32));
+	}
+	b
+}
+
+pub fn list_limits(cx: &mut Ctx, work: &std::path::Path) {
+	let max_pa = grin_p2p::MAX_PEER_ADDRS as usize;
+	let max_loc = grin_p2p::MAX_LOCATORS as usize;
+	let max_hdr = grin_p2p::MAX_BLOCK_HEADERS as usize;
+	let vers: Vec<u32> = if cx.thorough { VERSIONS.to_vec() } else { vec![1000, 1] };
+	for &ver in &vers {
+		let ping = ping_frame(ver, 31_415);
+		let ping_exp = Exp::Body(Type::Ping as u8, hex(&ping[11..]));
+		// (name, type, body, accepted?)
+		let mut cases: Vec<(String, Type, Vec<u8>, bool)> = vec![];
+		for n in [0usize, 1, max_pa - 1, max_pa] {
+			let peers: Vec<PeerAddr> = (0..n).map(|_| gen_addr(&mut cx.rng)).collect();
+			cases.push((format!("PeerAddrs({})", n), Type::PeerAddrs, sv(&PeerAddrs { peers }, ver), true));
+		}
+		for n in [max_pa + 1, 2 * max_pa] {
+			cases.push((format!("PeerAddrs({})", n), Type::PeerAddrs, peer_addrs_body(&mut cx.rng, n as u32, n), false));
+		}
+		for n in [0usize, 1, max_loc - 1, max_loc] {
+			let hashes: Vec<Hash> = (0..n).map(|_| hash32(&mut cx.rng)).collect();
+			cases.push((format!("GetHeaders({})", n), Type::GetHeaders, sv(&Locator { hashes }, ver), true));
+		}
+		for n in [max_loc + 1, 2 * max_loc] {
+			cases.push((format!("GetHeaders({})", n), Type::GetHeaders, locator_body(&mut cx.rng, n as u8, n), false));
+		}
+		for (name, t, body, accepted) in &cases {
+			let mut w = sv(&MsgHeader::new(*t, body.len() as u64), ver);
+			w.extend_from_slice(body);
+			w.extend_from_slice(&ping);
+			let cut_count = 11 + if *t == Type::PeerAddrs { 4 } else { 1 };
+			let mut plans: Vec<Vec<usize>> = vec![vec![], vec![cut_count], vec![11 + body.len()], vec![11 + body.len() - 1]];
+			for _ in 0..2 {
+				plans.push(vec![1 + cx.rng.below(w.len() as u64 - 1) as usize]);
+			}
+			for ps in plans {
+				let ps: Vec<usize> = ps.into_iter().filter(|p| *p > 0 && *p < w.len()).collect();
+				let frags = split_at_points(&w, &ps);
+				let r = run_codec(ver, &frags, &[200]);
+				cx.stat(&format!("list at its count limit: {} {}", name, if *accepted { "(within the writer's range)" } else { "(above the maximum)" }));
+				let ok = if *accepted {
+					r.got == vec![Exp::Body(*t as u8, hex(body)), ping_exp.clone()] && r.end == "Connection"
+				} else {
+					r.got.is_empty() && r.end == "Ser:TooLargeReadErr"
+				};
+				if !ok {
+					cx.fails += 1;
+					cx.out.raw(&format!(
+						"#ORACLE-FAIL C19 list message at its item-count limit: {} at version {} (maxima: PeerAddrs {}, locator {}) {}: the codec read {:?} and ended with {} (frame {} bytes, fragments at {:?})",
+						name, ver, max_pa, max_loc, if *accepted { "must be read back as written" } else { "must be refused with TooLargeReadErr and nothing behind it executed" },
+						r.got.iter().map(|e| format!("{:?}", e).chars().take(50).collect::<String>()).collect::<Vec<_>>(), r.end, w.len(), ps
+					));
+				}
+				emit_run(cx, ver, &frags, &r, false);
+			}
+		}
+		// the count disagrees with the frame length
+		let mut odd: Vec<(Type, Vec<u8>)> = vec![
+			(Type::PeerAddrs, peer_addrs_body(&mut cx.rng, max_pa as u32, max_pa - 1)),
+			(Type::PeerAddrs, peer_addrs_body(&mut cx.rng, max_pa as u32 - 1, max_pa)),
+			(Type::PeerAddrs, peer_addrs_body(&mut cx.rng, max_pa as u32 + 1, max_pa)),
+			(Type::PeerAddrs, peer_addrs_body(&mut cx.rng, 0, 3)),
+			(Type::PeerAddrs, peer_addrs_body(&mut cx.rng, u32::MAX, 2)),
+			(Type::GetHeaders, locator_body(&mut cx.rng, max_loc as u8, max_loc - 1)),
+			(Type::GetHeaders, locator_body(&mut cx.rng, max_loc as u8 - 1, max_loc)),
+			(Type::GetHeaders, locator_body(&mut cx.rng, max_loc as u8 + 1, max_loc)),
+			(Type::GetHeaders, locator_body(&mut cx.rng, 255, 2)),
+		];
+		for (t, body) in odd.drain(..) {
+			let mut w = sv(&MsgHeader::new(t, body.len() as u64), ver);
+			w.extend_from_slice(&body);
+			w.extend_from_slice(&ping);
+			let r = run_codec(ver, &[w.clone()], &[0]);
+			cx.stat("list whose count disagrees with the frame length");
+			if r.end == "panic" {
+				cx.fails += 1;
+				cx.out.raw(&format!("#ORACLE-FAIL C11/C19 list message with inconsistent count panicked the codec: {}", hex(&w).chars().take(300).collect::<String>()));
+			}
+			emit_run(cx, ver, &[w], &r, false);
+		}
+		// Headers at MAX_BLOCK_HEADERS: max - 1, max (what an honest peer answers to GetHeaders), and max + 1 (the
+		// streaming codec has no count bound of its own: only the frame length limits the list)
+		for n in [max_hdr - 1, max_hdr, max_hdr + 1] {
+			if ver != 1000 && !cx.thorough {
+				continue;
+			}
+			let mut hs = header_pool(cx, 48);
+			while hs.len() < n {
+				let k = hs.len();
+				hs.push(hs[k % 48].clone());
+			}
+			let w0 = wire(&Msg::new(Type::Headers, Headers { headers: hs.clone() }, ProtocolVersion(ver)).unwrap());
+			let mut w = w0.clone();
+			w.extend_from_slice(&ping);
+			let mut exp = vec![];
+			let mut i = 0;
+			while i < n {
+				let j = (i + 32).min(n);
+				let canon: Vec<u8> = hs[i..j].iter().flat_map(|h| sv(h, ver)).collect();
+				exp.push(Exp::Headers(j - i, (n - j) as u64, hex(&canon)));
+				i = j;
+			}
+			exp.push(ping_exp.clone());
+			for ps in [vec![], vec![13], vec![w0.len() - 1], vec![1 + cx.rng.below(w.len() as u64 - 1) as usize]] {
+				let frags = split_at_points(&w, &ps);
+				let r = run_codec(ver, &frags, &[200]);
+				cx.stat(&format!("list at its count limit: Headers({})", n));
+				if r.got != exp || r.end != "Connection" {
+					cx.fails += 1;
+					cx.out.raw(&format!("#ORACLE-FAIL C19 Headers list of {} items (MAX_BLOCK_HEADERS = {}) at version {} not read back in batches of 32 as written: {} batches, end {}", n, max_hdr, ver, r.got.len(), r.end));
+				}
+				emit_run(cx, ver, &frags, &r, false);
+			}
+		}
+	}
+	// the same through the real writer thread and the real reader thread
+	for &ver in &vers {
+		let mut plan: Vec<PlanMsg> = vec![];
+		let pa = |cx: &mut Ctx, n: usize| {
+			let peers: Vec<PeerAddr> = (0..n).map(|_| gen_addr(&mut cx.rng)).collect();
+			plain_plan(Type::PeerAddrs, &PeerAddrs { peers }, ver, &format!("PeerAddrs({})", n))
+		};
+		let loc = |cx: &mut Ctx, n: usize| {
+			let hashes: Vec<Hash> = (0..n).map(|_| hash32(&mut cx.rng)).collect();
+			plain_plan(Type::GetHeaders, &Locator { hashes }, ver, &format!("GetHeaders({})", n))
+		};
+		plan.push(pa(cx, max_pa));
+		plan.push(plan_message(cx, ver, 0));
+		plan.push(loc(cx, max_loc));
+		let mut hs = header_pool(cx, 48);
+		while hs.len() < max_hdr {
+			let k = hs.len();
+			hs.push(hs[k % 48].clone());
+		}
+		plan.push(headers_plan(&hs, ver));
+		plan.push(pa(cx, max_pa - 1));
+		plan.push(loc(cx, max_loc - 1));
+		plan.push(pa(cx, 0));
+		plan.push(loc(cx, 0));
+		plan.push(pa(cx, 1));
+		plan.push(plan_message(cx, ver, 0));
+		let r = run_duplex(ver, &plan, work, 900 + ver as u64);
+		let want_b: Vec<Exp> = plan.iter().flat_map(|p| p.exp.clone()).collect();
+		let want_a: Vec<Exp> = plan.iter().filter(|p| p.t == Type::Ping).map(|p| Exp::Body(Type::Pong as u8, hex(&p.body))).collect();
+		cx.stat("list messages at their maximum count through the writer and reader threads");
+		if r.b_got != want_b || r.a_got != want_a || r.send_errors != 0 {
+			cx.fails += 1;
+			let short = |v: &Vec<Exp>| v.iter().map(|e| format!("{:?}", e).chars().take(40).collect::<String>()).collect::<Vec<_>>();
+			cx.out.raw(&format!(
+				"#ORACLE-FAIL C19 list messages at their maximum item count (PeerAddrs {}, locator {}, Headers {}) written by one peer were not read by the other as the identical sequence: version {}, messages {:?}: the receiver's handler saw {:?}; Pongs back {:?} of {}",
+				max_pa, max_loc, max_hdr, ver, plan.iter().map(|p| p.name.clone()).collect::<Vec<_>>(), short(&r.b_got), r.a_got.len(), want_a.len()
+			));
+		}
+		cx.out.line(&format!("codec duplex {} {}", ver, plan_text(&plan)), &format!("[{}]|[{}]", r.b_events.join(";"), r.a_events.join(";")));
+	}
+}
